@@ -217,8 +217,20 @@ def lean_def(name, binders, rtype, lets, result, extra=''):
     return f'def {name} {extra}{binders} : {rtype} :=\n{body}'
 
 
+class _Gen(Gen):
+    """`VERIF_FORCE_FALLBACK=name1,name2|all` makes the named items untranslatable (testing aid for the fallback texts)"""
+
+    def item(self, name, source, node_fn, build, fallback):
+        import os
+        forced = os.environ.get('VERIF_FORCE_FALLBACK', '').split(',')
+        if name in forced or 'all' in forced:
+            def build():      # noqa: F811
+                raise Untranslatable('forced by VERIF_FORCE_FALLBACK')
+        return super().item(name, source, node_fn, build, fallback)
+
+
 def generate(repo):
-    g = Gen('C19', imports=['PrysmVerif.Model.C19'], header=HEADER)
+    g = _Gen('C19', imports=['PrysmVerif.Model.C19'], header=HEADER)
     sm, _ = load(repo, 'prysm/x/raytracing/spencer_and_murty.py')
     sf, _ = load(repo, 'prysm/x/raytracing/surfaces.py')
     co, _ = load(repo, 'prysm/coordinates.py')
